@@ -703,7 +703,7 @@ func splitField(v ssa.Value, p *ssa.Parameter, k int64) bool {
 		return false
 	}
 	sc, ok := resolve(ia.X).(*ssa.Call)
-	if !ok || !calleeIs(sc, "strings", "Split") {
+	if !ok || !isSplitCall(sc, k+1) {
 		return false
 	}
 	return resolve(sc.Call.Args[0]) == p
@@ -891,6 +891,26 @@ func ruleNoSkip(w *World, r *Report, fn string) {
 		if n == 0 {
 			r.add("NOSKIP", key, w.Pos(header.Instrs[0].Pos()), Info, "loop without recording effect (not part of the pipeline)")
 			return
+		}
+		// a nested loop that records its own elements stands for one bulk
+		// append of its collection (which may be empty): reaching it counts
+		for _, sr := range findSliceRanges(f) {
+			if sr.Header != header && blocks[sr.Header] {
+				for b := range sr.blocks() {
+					if stop[b] {
+						stop[sr.Header] = true
+					}
+				}
+			}
+		}
+		for _, mr := range findMapRanges(f) {
+			if mr.Header != header && blocks[mr.Header] {
+				for b := range mr.blocks() {
+					if stop[b] {
+						stop[mr.Header] = true
+					}
+				}
+			}
 		}
 		reach := simulate(body, stop, func(ssa.Value) (bool, bool) { return false, false })
 		if reach[header] {
